@@ -2,6 +2,8 @@
    stream `cmp`   : `<wire a> <wire b>`                  -> `lt` | `eq` | `gt`
    stream `ops`   : `<wire a> <wire b>`                  -> six letters t/f for == != < <= > >=
    stream `native`: `<name> <wire input> [<wire arg>]`   -> `ok <wire>` | `err type` | `err length`
+                    | `?…` when the model does not determine the answer (sorting keys on which the
+                      comparison is not a preorder — only possible outside the property's domain)
 -/
 import Gojq.Model.Compare
 import Gojq.Model.Sort
@@ -26,6 +28,48 @@ def opsLine (line : String) : String :=
   | some [a, b] => tf (opEq a b) ++ tf (opNe a b) ++ tf (opLt a b) ++ tf (opLe a b) ++ tf (opGt a b) ++ tf (opGe a b)
   | _ => "?parse"
 
+/-- composition law of a three-way comparison (the same table as `compat` in Proofs/Compare.lean) -/
+def compatB (ab bc ac : Ordering) : Bool :=
+  match ab, bc with
+  | .eq, o => ac == o
+  | o, .eq => ac == o
+  | .lt, .lt => ac == .lt
+  | .gt, .gt => ac == .gt
+  | _, _ => true
+
+def dedupKeys : List JV → List JV → List JV
+  | [], acc => acc.reverse
+  | k :: ks, acc => if acc.any (· == k) then dedupKeys ks acc else dedupKeys ks (k :: acc)
+
+/-- is `cmp` a preorder on this set of keys?  Outside the property's domain (NaN, floats ≥ 2^53
+    next to big integers) it may not be, and then the result of a sort depends on the algorithm:
+    Go's `sort.SliceStable` and the model's insertion sort agree only where every stable sort
+    agrees (`stable_sort_unique`).  Such lines are answered `?` (unmodelled). -/
+def keysConsistent (keys : List JV) : Bool :=
+  if keys.all JV.tame then true else
+  let ds := (dedupKeys keys []).toArray
+  let n := ds.size
+  let m := ds.map fun a => ds.map fun b => cmp a b
+  let get (i j : Nat) : Ordering := (m.getD i #[]).getD j .eq
+  (List.range n).all fun i =>
+    -- a sort never compares an element with itself: reflexivity matters only for keys that occur twice
+    (get i i == .eq || (keys.filter (· == ds.getD i .null)).length ≤ 1) &&
+    (List.range n).all fun j =>
+      (i == j || get j i == (get i j).swap) &&
+      (List.range n).all fun k => compatB (get i j) (get j k) (get i k)
+
+def sortKeysOf (v : JV) (x : Option JV) : List JV :=
+  match x.getD v with
+  | .arr ks => ks
+  | _ => []
+
+def guardSort (v : JV) (x : Option JV) (r : Except SortErr JV) : String :=
+  if keysConsistent (sortKeysOf v x) then showRes' r else "?inconsistent-order-on-these-keys"
+where showRes' : Except SortErr JV → String
+  | .ok v => "ok " ++ toWire v
+  | .error .type => "err type"
+  | .error .length => "err length"
+
 def showRes : Except SortErr JV → String
   | .ok v => "ok " ++ toWire v
   | .error .type => "err type"
@@ -37,8 +81,8 @@ def nativeLine (line : String) : String :=
     match parseVals rest with
     | some [v] =>
       match name with
-      | "sort" => showRes (sort v)
-      | "unique" => showRes (unique v)
+      | "sort" => guardSort v none (sort v)
+      | "unique" => guardSort v none (unique v)
       | "min" => showRes (minMaxBy true v v)
       | "max" => showRes (minMaxBy false v v)
       | "keys" => showRes (keys v)
@@ -46,9 +90,9 @@ def nativeLine (line : String) : String :=
       | _ => "?op"
     | some [v, x] =>
       match name with
-      | "sort_by" => showRes (sortBy v x)
-      | "group_by" => showRes (groupBy v x)
-      | "unique_by" => showRes (uniqueBy v x)
+      | "sort_by" => guardSort v (some x) (sortBy v x)
+      | "group_by" => guardSort v (some x) (groupBy v x)
+      | "unique_by" => guardSort v (some x) (uniqueBy v x)
       | "min_by" => showRes (minMaxBy true v x)
       | "max_by" => showRes (minMaxBy false v x)
       | "bsearch" => showRes (bsearch v x)
